@@ -1030,8 +1030,15 @@ fn conv_step(t: &[&str]) -> Option<String> {
 }
 
 fn run_line(st: &mut St, line: &str) -> String {
-    let toks: Vec<&str> = line.trim().split(' ').collect();
+    let mut toks: Vec<&str> = line.trim().split(' ').collect();
+    // `NR <op>`: after a panic the register keeps whatever state the unwinding left in it (a caller that catches the panic
+    // and goes on using the hasher sees exactly that)
+    let no_restore = toks.first() == Some(&"NR");
+    if no_restore {
+        toks.remove(0);
+    }
     let backup_h = match toks.as_slice() {
+        _ if no_restore => None,
         ["H", _, r, ..] | ["T", _, r, ..] => st.hs.get(*r).cloned().map(|h| (r.to_string(), h)),
         _ => None,
     };
@@ -1096,9 +1103,14 @@ fn main() {
     let mut st = St::default();
     for line in stdin.lock().lines() {
         let line = line.unwrap();
-        let toks: Vec<&str> = line.trim().split(' ').collect();
-        // keep copies so a panic in the middle of a mutating op leaves the registers as they were
+        let mut toks: Vec<&str> = line.trim().split(' ').collect();
+        let no_restore = toks.first() == Some(&"NR");
+        if no_restore {
+            toks.remove(0);
+        }
+        // keep copies so a panic in the middle of a mutating op leaves the registers as they were (unless `NR`)
         let backup_h = match toks.as_slice() {
+            _ if no_restore => None,
             ["H", _, r, ..] | ["T", _, r, ..] => st.hs.get(*r).cloned().map(|h| (r.to_string(), h)),
             _ => None,
         };
